@@ -1274,9 +1274,385 @@ func c07Scenarios() []*c07Scn {
 	}
 }
 
+// ---------------------------------------------------------------------------------------------
+// idle burst: the NUMBER of sessions of one connection that expire in the same sweep
+//
+// The scenarios above hold the number of sessions that are past the idle timeout in one sweep at 1-2.
+// The property quantifies over "many session IDs" and its expiry clause speaks of every session: a
+// session idle for the timeout is closed within one sweep interval however many others expire with it.
+// The count is therefore an input. One sequential scenario (default schedule only, P = 0) whose single
+// environment choice is N: N sessions (ids 1..N, one destination each) are created at the same virtual
+// instant and left idle together. Judged with the property's own clauses:
+//   - created: N table entries, each holding its own open socket with its own datagram written to it;
+//   - kept: no idle-sweep close before last traffic + idle timeout;
+//   - expire: once last traffic + idle timeout + one sweep interval (+ the stall-aware slack of
+//     quiescent()) has passed every one of the N is out of the table, its socket closed exactly once,
+//     one Close event;
+//   - fresh-session: the same N ids then come back together, each gets a new socket of its own;
+//   - leak / close-once at connection loss with N live sessions: table empty, every socket closed
+//     exactly once, one Close event per New event, no thread left.
+// Alphabet of N: c07BurstQuick (1, 2, powers of two +-1 around 64, 128, 200) in the quick tier, every
+// N in 1..c07BurstThoroughMax (covers maxSessionACLCache +-1) in the thorough tier. The fakes are
+// separate from c07World's (its one-byte payload tags cannot name hundreds of datagrams) and log per
+// phase, not per session. Added after the independently seeded change C07-13 (the idle sweep closed at
+// most 64 expired sessions per tick, "bounded batches": with more than 64 sessions idle together the
+// others stayed open, sockets and reply goroutines included, for further sweep intervals).
+
+var c07BurstQuick = []int{1, 2, 63, 64, 65, 128, 200}
+
+const c07BurstThoroughMax = 300
+
+type c07BurstSock struct {
+	w      *c07BurstWorld
+	id     uint32
+	round  byte
+	addr   string
+	op     string
+	closes int
+	writes int
+}
+
+type c07BurstWorld struct {
+	e       *vsched.Exec
+	m       *udpSessionManager
+	n       int
+	queue   []protocol.UDPMessage
+	cur     *protocol.UDPMessage
+	lost    bool
+	last    map[uint32]int64 // virtual time of the last traffic of id (delivery of its datagram)
+	socks   []*c07BurstSock
+	sockOf  map[uint32]*c07BurstSock // latest socket of id
+	news    map[uint32]int
+	closes  map[uint32]int
+	failed  map[string]bool
+	runDone bool
+	runErr  error
+}
+
+// fail reports the first failure of each clause only (N sessions fail alike)
+func (w *c07BurstWorld) fail(clause, format string, a ...any) {
+	if w.failed[clause] {
+		return
+	}
+	w.failed[clause] = true
+	w.e.Fail("C07 "+clause+": "+format, a...)
+}
+
+func (w *c07BurstWorld) logf(format string, a ...any) {
+	t := w.e.Now()
+	w.e.Logf("%d.%03d %s", t/c07Sec, (t%c07Sec)/c07Ms, fmt.Sprintf(format, a...))
+}
+
+func (w *c07BurstWorld) table() map[uint32]*udpSessionEntry {
+	t, ok := vpriv.FieldByType[map[uint32]*udpSessionEntry](w.m)
+	if !ok {
+		w.fail("harness", "HARNESS-UNDECIDED: the session manager has no (single) map[uint32]*udpSessionEntry table any more")
+	}
+	return t
+}
+
+type c07BurstIO struct{ w *c07BurstWorld }
+
+func (io *c07BurstIO) ReceiveMessage() (*protocol.UDPMessage, error) {
+	w := io.w
+	w.cur = nil
+	w.e.Point("net", func() bool { return len(w.queue) > 0 || w.lost }, "c07burst.ReceiveMessage")
+	if w.lost {
+		return nil, c07ErrLost
+	}
+	d := w.queue[0]
+	w.queue = w.queue[1:]
+	w.cur = &d
+	w.last[d.SessionID] = w.e.Now()
+	m := d
+	m.Data = append(make([]byte, 0, len(d.Data)), d.Data...)
+	return &m, nil
+}
+
+func (io *c07BurstIO) SendMessage(buf []byte, msg *protocol.UDPMessage) error {
+	io.w.e.Point("net", nil, "c07burst.SendMessage")
+	io.w.fail("isolation", "message sent to the client that no remote produced (session %d)", msg.SessionID)
+	return nil
+}
+
+func (io *c07BurstIO) Hook(data []byte, reqAddr *string) error { return nil }
+
+func (io *c07BurstIO) CheckUDP(reqAddr string) error {
+	io.w.e.Point("env", nil, "CheckUDP")
+	return nil
+}
+
+func (io *c07BurstIO) UDP(reqAddr string) (UDPConn, error) {
+	w := io.w
+	d := w.cur
+	if d == nil {
+		w.fail("harness", "UDP() called outside the processing of any datagram")
+		return nil, c07ErrDial
+	}
+	id := d.SessionID
+	if reqAddr != d.Addr {
+		w.fail("isolation", "session %d dialled %q, want %q", id, reqAddr, d.Addr)
+	}
+	if p := w.table()[id]; p == nil || p.closed {
+		w.fail("revive", "a socket was opened for session %d whose entry was already closed", id)
+	}
+	if prev := w.sockOf[id]; prev != nil && prev.closes == 0 {
+		w.fail("isolation", "a second socket was opened for session %d while its first one is open", id)
+	}
+	s := &c07BurstSock{w: w, id: id, round: d.Data[4], addr: reqAddr, op: fmt.Sprintf("c07burst.sock%d.ReadFrom", len(w.socks))}
+	w.socks = append(w.socks, s)
+	w.sockOf[id] = s
+	return s, nil
+}
+
+func (s *c07BurstSock) ReadFrom(b []byte) (int, string, error) {
+	// the remotes never reply: the read ends when the socket is closed
+	s.w.e.Point("net", func() bool { return s.closes > 0 }, s.op)
+	return 0, "", c07ErrClosed
+}
+
+func (s *c07BurstSock) WriteTo(b []byte, addr string) (int, error) {
+	w := s.w
+	w.e.Point("net", nil, "c07burst.WriteTo")
+	switch {
+	case len(b) != 8:
+		w.fail("isolation", "payload of a datagram altered on the way to the socket of session %d", s.id)
+	case uint32(b[0])<<24|uint32(b[1])<<16|uint32(b[2])<<8|uint32(b[3]) != s.id:
+		w.fail("isolation", "a datagram of another session was written to the socket created for session %d", s.id)
+	case b[4] != s.round:
+		w.fail("fresh-session", "a datagram of session %d was written to a socket opened for an earlier datagram burst", s.id)
+	case addr != s.addr:
+		w.fail("isolation", "datagram of session %d sent to %q, want %q", s.id, addr, s.addr)
+	}
+	if s.closes > 0 {
+		return 0, c07ErrClosed
+	}
+	s.writes++
+	return len(b), nil
+}
+
+func (s *c07BurstSock) Close() error {
+	w := s.w
+	w.e.Point("net", nil, "c07burst.Close")
+	s.closes++
+	if s.closes > 1 {
+		w.fail("close-once", "the socket of session %d was closed %d times", s.id, s.closes)
+		return c07ErrClosed
+	}
+	return nil
+}
+
+type c07BurstLog struct{ w *c07BurstWorld }
+
+func (l *c07BurstLog) New(id uint32, addr string) {
+	w := l.w
+	w.news[id]++
+	if w.cur == nil || w.cur.SessionID != id {
+		w.fail("events", "New event for session %d outside the processing of a datagram of that session", id)
+	}
+	if w.news[id] != w.closes[id]+1 {
+		w.fail("events", "New event for session %d while its previous session has not been closed", id)
+	}
+}
+
+func (l *c07BurstLog) Close(id uint32, err error) {
+	w := l.w
+	w.closes[id]++
+	if w.closes[id] > w.news[id] {
+		w.fail("events", "more Close events than New events for session %d", id)
+	}
+	if err == nil && !w.lost && w.e.Now() < w.last[id]+c07Timeout {
+		w.fail("keep-active", "session %d of a burst of %d was closed by the idle sweep although it had traffic inside the idle timeout", id, w.n)
+	}
+}
+
+// send queues one datagram for each of the ids 1..n; round tells the bursts apart
+func (w *c07BurstWorld) send(round byte) {
+	for id := uint32(1); id <= uint32(w.n); id++ {
+		w.queue = append(w.queue, protocol.UDPMessage{SessionID: id, FragCount: 1, Addr: fmt.Sprintf("b%d:53", id),
+			Data: []byte{byte(id >> 24), byte(id >> 16), byte(id >> 8), byte(id), round, 'b', 'b', 'b'}})
+	}
+	w.logf("env burst %d: one datagram for each of %d sessions", round, w.n)
+}
+
+// allOpen: every id has a table entry that holds its own open socket of this round, written to once
+func (w *c07BurstWorld) allOpen(clause string, round byte) {
+	tb := w.table()
+	bad, first := 0, uint32(0)
+	for id := uint32(1); id <= uint32(w.n); id++ {
+		p, s := tb[id], w.sockOf[id]
+		ok := p != nil && !p.closed && p.ID == id && s != nil && s.round == round && s.closes == 0 && s.writes == 1 && p.conn == UDPConn(s) &&
+			w.news[id] == int(round) && w.closes[id] == int(round)-1
+		if !ok {
+			if bad == 0 {
+				first = id
+			}
+			bad++
+		}
+	}
+	w.logf("check %s: count=%d sockets=%d not-open=%d", clause, len(tb), len(w.socks), bad)
+	if bad > 0 {
+		w.fail(clause, "%d of the %d sessions that sent a datagram together (burst %d) do not hold an open socket of their own with that datagram written to it (first: session %d)", bad, w.n, round, first)
+	}
+	if len(tb) != w.n || len(w.socks) != int(round)*w.n {
+		w.fail(clause, "%d sessions sent a datagram together (burst %d): %d table entries, %d sockets opened so far", w.n, round, len(tb), len(w.socks))
+	}
+}
+
+// c07BurstBody: N = sizes[i] is the one environment answer of the scenario, taken before anything runs
+// (index 0 = the smallest N). A long alphabet is chosen as two digits i = block*k + offset, so that the
+// explorer's sharding (subtrees below the second deviation) splits its executions between the shards;
+// k == len(sizes) makes it a single choice.
+func c07BurstBody(sizes []int, k int) func(e *vsched.Exec) {
+	return func(e *vsched.Exec) {
+		i := e.Choose((len(sizes)+k-1)/k, vsched.KEnv, "burst-size-block") * k
+		i += e.Choose(k, vsched.KEnv, "burst-size")
+		if i >= len(sizes) {
+			return // beyond the alphabet: nothing to run
+		}
+		n := sizes[i]
+		w := &c07BurstWorld{e: e, n: n, last: map[uint32]int64{}, sockOf: map[uint32]*c07BurstSock{}, news: map[uint32]int{},
+			closes: map[uint32]int{}, failed: map[string]bool{}}
+		w.logf("burst size N=%d", n)
+		w.m = newUDPSessionManager(&c07BurstIO{w}, &c07BurstLog{w}, time.Duration(c07Timeout))
+		vsched.GoNamed("c07-run", func() {
+			w.runErr = w.m.Run()
+			w.runDone = true
+		})
+		e.WaitIdle() // the sweeper's ticker is created at virtual time 0
+
+		// N sessions start together ...
+		w.send(1)
+		e.WaitIdle()
+		w.allOpen("fresh-session", 1)
+		// ... are all there just before the idle timeout ...
+		if d := c07Timeout - c07Eps - e.Now(); d > 0 {
+			e.Sleep(d)
+		}
+		e.WaitIdle()
+		w.allOpen("keep-active", 1)
+		// ... and all gone once idle timeout + one sweep interval have passed. The slack is quiescent()'s:
+		// every stall of the schedule may cost the time it lasted plus one more sweep (none in the default
+		// schedule, the only one this scenario runs)
+		lastOf := func() int64 {
+			m := int64(0)
+			for _, t := range w.last {
+				m = max(m, t)
+			}
+			return m
+		}
+		for i := 0; i < 8; i++ {
+			dl := lastOf() + c07Timeout + c07Sweep*int64(1+e.Stalls()) + e.StallNS()
+			if e.Now() > dl {
+				break
+			}
+			e.Sleep(dl + c07Eps - e.Now())
+			e.WaitIdle()
+		}
+		T := e.Now()
+		tb := w.table()
+		open, first, sockBad, evBad := 0, uint32(0), 0, 0
+		for id := uint32(1); id <= uint32(n); id++ {
+			if T <= w.last[id]+c07Timeout+c07Sweep*int64(1+e.Stalls())+e.StallNS() {
+				continue
+			}
+			s := w.sockOf[id]
+			if p := tb[id]; p != nil || (s != nil && s.closes == 0) {
+				if open == 0 {
+					first = id
+				}
+				open++
+				continue
+			}
+			if s == nil || s.closes != 1 {
+				sockBad++
+			}
+			if w.news[id] != 1 || w.closes[id] != 1 {
+				evBad++
+			}
+		}
+		w.logf("check expire: count=%d still-open=%d", len(tb), open)
+		if open > 0 {
+			w.fail("expire", "%d of %d sessions that went idle together are still open %d ms after their last traffic (more than idle timeout + one sweep interval); first: session %d",
+				open, n, (T-w.last[first])/c07Ms, first)
+		}
+		if sockBad > 0 {
+			w.fail("close-once", "%d of %d sessions that expired together did not get their socket closed exactly once", sockBad, n)
+		}
+		if evBad > 0 {
+			w.fail("events", "%d of %d sessions that expired together did not get exactly one New and one Close event", evBad, n)
+		}
+
+		// the same N ids come back together: fresh sessions on new sockets
+		if open == 0 {
+			w.send(2)
+			e.WaitIdle()
+			w.allOpen("fresh-session", 2)
+		}
+
+		// the connection ends with N live sessions
+		w.lost = true
+		w.logf("LOSS")
+		e.WaitIdle()
+		if !w.runDone {
+			w.fail("leak", "Run did not return after connection loss")
+		} else if w.runErr != c07ErrLost {
+			w.fail("leak", "Run returned %v, want the connection error", w.runErr)
+		}
+		if c := w.m.Count(); c != 0 {
+			w.fail("leak", "%d of %d session(s) left in the table after connection loss", c, n)
+		}
+		sockBad, evBad = 0, 0
+		for _, s := range w.socks {
+			if s.closes != 1 {
+				sockBad++
+			}
+		}
+		for id := uint32(1); id <= uint32(n); id++ {
+			if w.news[id] != w.closes[id] {
+				evBad++
+			}
+		}
+		w.logf("check final: sockets=%d not-closed-once=%d", len(w.socks), sockBad)
+		if sockBad > 0 {
+			w.fail("close-once", "%d of %d sockets were not closed exactly once after connection loss (burst of %d sessions)", sockBad, len(w.socks), n)
+		}
+		if evBad > 0 {
+			w.fail("events", "%d of %d sessions did not get one Close event per New event", evBad, n)
+		}
+		if al := e.Alive(); len(al) != 0 {
+			w.fail("leak", "%d thread(s) still alive after connection loss and Run's return (burst of %d sessions), e.g. %s", len(al), n, al[0])
+		}
+	}
+}
+
+// c07BurstScenarios: one scenario per alphabet of N; the name states the alphabet (a replay names its
+// scenario, and a pick is an index into that scenario's alphabet)
+func c07BurstScenarios(env *evidence.Env) []*explore.Scenario {
+	all := make([]int, c07BurstThoroughMax)
+	for i := range all {
+		all[i] = i + 1
+	}
+	b := explore.Bounds{P: 0, E: 1}  // the default schedule of each N
+	b2 := explore.Bounds{P: 0, E: 2} // the same with N chosen as two digits
+	opt := vsched.Options{MaxSteps: 4000000}
+	var scs []*explore.Scenario
+	if !env.Thorough() || env.Replay != "" {
+		scs = append(scs, &explore.Scenario{Name: "idle-burst-N-sessions-expire-in-one-sweep/N=" + strings.Trim(strings.ReplaceAll(fmt.Sprint(c07BurstQuick), " ", ","), "[]"),
+			Quick: b, Thorough: b, Opt: opt, Body: c07BurstBody(c07BurstQuick, len(c07BurstQuick)), Sig: c07Sig})
+	}
+	if env.Thorough() || env.Replay != "" {
+		scs = append(scs, &explore.Scenario{Name: fmt.Sprintf("idle-burst-N-sessions-expire-in-one-sweep/N=1..%d", c07BurstThoroughMax),
+			Quick: b2, Thorough: b2, Opt: opt, Body: c07BurstBody(all, 20), Sig: c07Sig})
+	}
+	return scs
+}
+
 func TestVerifC07UDPSessions(t *testing.T) {
 	env := evidence.GetEnv("C07")
-	var scs []*explore.Scenario
+	// the sequential burst scenario goes first: it is cheap (one execution per N) and must not be the
+	// one a tier deadline cuts off
+	scs := c07BurstScenarios(env)
 	for _, sc := range c07Scenarios() {
 		if sc.thOnly && !env.Thorough() && env.Replay == "" {
 			continue
